@@ -32,9 +32,17 @@ def gen(rng):
         # the second call must return as well
         if tc < 0:
             tc = 3 * horizon
+    # the set may be filled through Merge, and its membership may change between the two calls (Add, Merge of another
+    # set -- also of channels that are closed already or were returned by the first call -- and Clear)
+    between = []
+    if again and rng.random() < 0.6:
+        for _ in range(rng.randint(1, 2)):
+            op = rng.choice(["add", "merge", "merge", "clear"])
+            between.append(dict(op=op, ids=[] if op == "clear" else rng.sample(range(1, n + 1), rng.randint(1, n))))
     return [dict(op="scenario", n=n, members=members, closeAt=close_at, tc=tc, kind=rng.choice(["canceled", "deadline"]),
                  settle=settle, t0=rng.choice([0, 0, rng.randint(0, horizon)]), again=again,
-                 settle2=rng.choice([0, rng.randint(1, horizon)]), unit=rng.choice([1, 10, 1000]))]
+                 settle2=rng.choice([0, rng.randint(1, horizon)]), unit=rng.choice([1, 10, 1000]),
+                 via=rng.choice(["", "", "merge"]), between=between)]
 
 
 def generate(n, seed):
